@@ -49,7 +49,10 @@ func staircase(t *rapid.T, b uint64, d int, missing bool) []uint64 {
 // nested cells, complete and incomplete sibling groups at several levels,
 // runs of adjacent cells (also across faces), whole faces, boundary leaves.
 func genIDs(t *rapid.T, maxOps int, pool []uint64) []uint64 {
-	nops := rapid.IntRange(0, maxOps).Draw(t, "nops")
+	nops := rapid.IntRange(1, maxOps).Draw(t, "nops")
+	if rapid.IntRange(0, 39).Draw(t, "none") == 23 {
+		nops = 0
+	}
 	var ids []uint64
 	for i := 0; i < nops && len(ids) < maxIDs; i++ {
 		b := pickBase(t, ids, pool)
@@ -84,6 +87,8 @@ func genIDs(t *rapid.T, maxOps int, pool []uint64) []uint64 {
 				for k := 0; k < 4; k++ {
 					ids = append(ids, childOf(b, k))
 				}
+			} else {
+				ids = append(ids, b)
 			}
 		case 5:
 			if lv < maxLevel {
@@ -93,6 +98,8 @@ func genIDs(t *rapid.T, maxOps int, pool []uint64) []uint64 {
 						ids = append(ids, childOf(b, k))
 					}
 				}
+			} else {
+				ids = append(ids, b)
 			}
 		case 6, 7:
 			d := rapid.IntRange(2, 6).Draw(t, "stairs")
@@ -111,12 +118,18 @@ func genIDs(t *rapid.T, maxOps int, pool []uint64) []uint64 {
 				ids = append(ids, mkCell(uint64(p)*s, s))
 			}
 		case 9:
-			if rapid.IntRange(0, 5).Draw(t, "allfaces") == 0 {
+			// whole faces swallow everything else on them: keep them infrequent
+			switch rapid.IntRange(0, 29).Draw(t, "facekind") {
+			case 13:
 				for f := uint64(0); f < 6; f++ {
 					ids = append(ids, mkCell(f*faceLeaves, faceLeaves))
 				}
-			} else {
+			case 1, 2, 3, 4:
 				ids = append(ids, ancestorAt(b, 0))
+			case 5, 6, 7, 0:
+				ids = append(ids, ancestorAt(b, min(lv, 1)))
+			default:
+				ids = append(ids, b)
 			}
 		case 10:
 			if lv > 0 {
@@ -126,6 +139,8 @@ func genIDs(t *rapid.T, maxOps int, pool []uint64) []uint64 {
 						ids = append(ids, c)
 					}
 				}
+			} else {
+				ids = append(ids, b)
 			}
 		case 11:
 			// boundary leaves: first/last leaf of b and the leaves just outside
@@ -149,6 +164,8 @@ func genIDs(t *rapid.T, maxOps int, pool []uint64) []uint64 {
 						ids = append(ids, childOf(childOf(b, k), j))
 					}
 				}
+			} else {
+				ids = append(ids, b)
 			}
 		default:
 			if lv > 0 {
